@@ -114,7 +114,11 @@ func sample(kw string, i int, parent string) *S {
 	case "if-feature":
 		return &S{kw, "f" + n, nil}
 	}
-	// unknown (unprefixed) keyword
+	// unknown (unprefixed) keyword; for the parser's internal names of the deviate kinds with the argument that would
+	// make them look like the real thing
+	if strings.HasPrefix(kw, "deviate-") {
+		return &S{kw, strings.TrimPrefix(kw, "deviate-"), nil}
+	}
 	return &S{kw, "arg" + n, nil}
 }
 
@@ -327,7 +331,7 @@ func TestCardinalityTriples(t *testing.T) {
 			}
 		}
 		// keywords that are neither YANG statements nor prefixed extensions are rejected everywhere
-		for _, unk := range []string{"foo", "Leaf", "yin", "containers", "leaf_list", "x;y"} {
+		for _, unk := range []string{"foo", "Leaf", "yin", "containers", "leaf_list", "x;y", "deviate-add", "deviate-delete", "deviate-replace", "deviate-not-supported"} {
 			if unk == "x;y" {
 				continue
 			}
